@@ -10,12 +10,12 @@ git -C /repo worktree add --detach "$wt" HEAD >/dev/null 2>&1
 trap 'git -C /repo worktree remove --force "$wt" >/dev/null 2>&1; rm -rf "$wt"' EXIT
 demo=$(ls "$sd"/*demo*_test.go 2>/dev/null | head -1)
 pkg=pub; grep -q '^package streams' "$demo" && pkg=streams
-run=$(grep -ho 'func Test[A-Za-z0-9_]*' "$demo" | head -1 | sed 's/func //')
+run=$(grep -ho 'func Test[A-Za-z0-9_]*' "$demo" | sed 's/func //' | paste -sd'|')
 cp "$demo" "$wt/$pkg/"
-(cd "$wt" && go test -vet=off -count=1 -run "^$run\$" ./$pkg/ >/dev/null 2>&1); without=$?
+(cd "$wt" && go test -vet=off -count=1 -run "^($run)\$" ./$pkg/ >/dev/null 2>&1); without=$?
 git -C "$wt" apply "$sd/patch.diff" || { echo "PATCH DOES NOT APPLY"; exit 2; }
 (cd "$wt" && go build ./... >/dev/null 2>&1); build=$?
-(cd "$wt" && go test -vet=off -count=1 -run "^$run\$" ./$pkg/ >/dev/null 2>&1); with=$?
+(cd "$wt" && go test -vet=off -count=1 -run "^($run)\$" ./$pkg/ >/dev/null 2>&1); with=$?
 rm "$wt/$pkg/$(basename "$demo")"
 base=$(python3 "$(dirname "$0")/baseline.py" "$wt" | head -1)
 echo "$(basename "$sd"): build=$build demo_without_change_exit=$without demo_with_change_exit=$with | $base"
